@@ -457,6 +457,14 @@ void dyn_array_reserve(DynArray* arr, int64_t new_capacity) {
         return;
     }
     
+    /* A struct array has no element size and no storage before its first push
+     * (dyn_array_push_struct allocates capacity * struct_size then): only record
+     * the request; realloc(ptr, 0) would free the block and return NULL. */
+    if (arr->elem_size == 0) {
+        arr->capacity = new_capacity;
+        return;
+    }
+
     void* new_data = realloc(arr->data, new_capacity * arr->elem_size);
     if (new_data == NULL) {
         fprintf(stderr, "DynArray: Out of memory reserving capacity\n");
